@@ -1,4 +1,5 @@
 import BdModel.Hist.Store
+import BdModel.Hist.Crash
 import Driver.Util
 namespace Driver.Hist
 open BdModel.Hist Driver
@@ -11,6 +12,15 @@ def answer (s : Store) (nd : Nat) (reqs : List Nat) (ns : List Nat) : String :=
   "ans find=" ++ ";".intercalate f ++ " latest=" ++ ",".intercalate la ++ " recent=" ++ ";".intercalate re ++
   " nfiles=" ++ toString s.files.length
 
+/-- canonical rendering of a store state: one `dag.stamp.req8.comp.lastpay` per file, sorted -/
+def canonState (s : Store) : String :=
+  let items := s.files.map (fun f => toString f.dag ++ "." ++ toString f.stamp ++ "." ++ toString f.req8 ++ "." ++
+    (if f.comp then "1" else "0") ++ "." ++ (match parse f with | some l => toString l.pay | none => "-"))
+  ",".intercalate (items.toArray.qsort (· < ·)).toList
+
+def statesLine (s : Store) (op : COp) : String :=
+  "states " ++ ";".intercalate ((crashStates s op).map canonState)
+
 /-- lines: `case <id> nd <n> reqs <r1,r2> ns <1,2,5>` then ops:
     `open w d t r8` | `write w req pay` | `close w` | `update d req pay` | `rename d d2` | `removeOld d days` | `age d days` -/
 def run (lines : List String) : List String := Id.run do
@@ -19,9 +29,22 @@ def run (lines : List String) : List String := Id.run do
   let mut nd := 0
   let mut reqs : List Nat := []
   let mut ns : List Nat := []
+  let mut crash := false
   for line in lines do
+    -- crash mode (C07): before applying a victim operation, print every state a kill during it can leave
+    if crash then
+      match words line with
+      | ["open", w, d, t, r8] => out := out ++ [statesLine s (.openRun (natD w) (natD d) (natD t) (natD r8))]
+      | ["write", w, r, p] => out := out ++ [statesLine s (.write (natD w) ⟨natD r, natD p⟩)]
+      | ["close", w] => out := out ++ [statesLine s (.close (natD w))]
+      | ["update", d, r, p] => out := out ++ [statesLine s (.update (natD d) ⟨natD r, natD p⟩)]
+      | ["rename", d, d2] => out := out ++ [statesLine s (.rename (natD d) (natD d2))]
+      | ["removeOld", d, days] => out := out ++ [statesLine s (.removeOld (natD d) (natD days))]
+      | _ => pure ()
     match words line with
+    | ["crash"] => crash := true
     | "case" :: rest =>
+      crash := false
       s := {}; nd := natD (kv rest "nd"); reqs := natList (kv rest "reqs"); ns := natList (kv rest "ns")
       out := out ++ ["case " ++ kv rest "id"]
     | ["open", w, d, t, r8] => s := openRun s (natD w) (natD d) (natD t) (natD r8); out := out ++ [answer s nd reqs ns]
